@@ -126,6 +126,18 @@ func LoadWorld(repoDir string, specDir string, patterns []string) (*World, error
 		}
 		w.addFile(cf)
 	}
+	// an extern contract written in a repository contract file must name a function that exists (a missing import
+	// line would otherwise silently turn it into a contract for nothing, and its callee into an unspecified call)
+	for _, cf := range w.files {
+		if cf.PkgPath == "" {
+			continue
+		}
+		for _, fc := range cf.Funcs {
+			if fc.Extern && !fc.Interface && w.funcs[fc.Key] == nil {
+				w.loadErrs = append(w.loadErrs, fmt.Sprintf("%s: extern contract for unknown function %s (missing import line?)", cf.Path, fc.Key))
+			}
+		}
+	}
 	if len(w.loadErrs) > 0 {
 		return nil, fmt.Errorf("contract errors: %s", strings.Join(w.loadErrs, "; "))
 	}
